@@ -1,0 +1,54 @@
+//go:build verif
+
+package tls
+
+import "sort"
+
+// Verification hooks for the handshake log (property C28); add-only.
+
+// VerifSigAlgRow is one entry of the signatureAlgorithms map (wire scheme ->
+// the SigAndHash pair the log shows for it).
+type VerifSigAlgRow struct {
+	Scheme          uint16
+	Signature, Hash uint8
+}
+
+// VerifLogTables are the tables the log builders read.
+type VerifLogTables struct {
+	SignatureAlgorithms []VerifSigAlgRow
+	SignatureNames      map[uint8]string
+	HashNames           map[uint8]string
+	// internal signature type codes
+	SigRSA, SigDSA, SigPKCS1v15, SigRSAPSS, SigECDSA, SigEd25519 uint8
+	SupportedSignatureAlgorithms                                []uint16
+}
+
+func VerifC28Tables() VerifLogTables {
+	t := VerifLogTables{SignatureNames: map[uint8]string{}, HashNames: map[uint8]string{},
+		SigRSA: signatureRSA, SigDSA: signatureDSA, SigPKCS1v15: signaturePKCS1v15,
+		SigRSAPSS: signatureRSAPSS, SigECDSA: signatureECDSA, SigEd25519: signatureEd25519}
+	for s, sh := range signatureAlgorithms {
+		t.SignatureAlgorithms = append(t.SignatureAlgorithms, VerifSigAlgRow{uint16(s), sh.Signature, sh.Hash})
+	}
+	sort.Slice(t.SignatureAlgorithms, func(i, j int) bool { return t.SignatureAlgorithms[i].Scheme < t.SignatureAlgorithms[j].Scheme })
+	for k, v := range signatureNames {
+		t.SignatureNames[k] = v
+	}
+	for k, v := range hashNames {
+		t.HashNames[k] = v
+	}
+	for _, s := range supportedSignatureAlgorithms {
+		t.SupportedSignatureAlgorithms = append(t.SupportedSignatureAlgorithms, uint16(s))
+	}
+	return t
+}
+
+// VerifTypeAndHashFromSignatureScheme exposes typeAndHashFromSignatureScheme
+// followed by the hash code point conversion the log uses.
+func VerifLoggedSigAndHash(scheme uint16) (sig, hash uint8, ok bool) {
+	sigType, h, err := typeAndHashFromSignatureScheme(SignatureScheme(scheme))
+	if err != nil {
+		return 0, 0, false
+	}
+	return sigType, tlsHashID(h), true
+}
